@@ -115,3 +115,9 @@ History.vos History.vok History.required_vos: History.v
 HistoryFacts.vo HistoryFacts.glob HistoryFacts.v.beautified HistoryFacts.required_vo: HistoryFacts.v Bytes.vo BytesFacts.vo Segment.vo SegmentFacts.vo Stack.vo StackFacts.vo Collection.vo CollectionFacts.vo Theorems.vo History.vo
 HistoryFacts.vio: HistoryFacts.v Bytes.vio BytesFacts.vio Segment.vio SegmentFacts.vio Stack.vio StackFacts.vio Collection.vio CollectionFacts.vio Theorems.vio History.vio
 HistoryFacts.vos HistoryFacts.vok HistoryFacts.required_vos: HistoryFacts.v Bytes.vos BytesFacts.vos Segment.vos SegmentFacts.vos Stack.vos StackFacts.vos Collection.vos CollectionFacts.vos Theorems.vos History.vos
+Refs.vo Refs.glob Refs.v.beautified Refs.required_vo: Refs.v 
+Refs.vio: Refs.v 
+Refs.vos Refs.vok Refs.required_vos: Refs.v 
+RefsFacts.vo RefsFacts.glob RefsFacts.v.beautified RefsFacts.required_vo: RefsFacts.v Refs.vo
+RefsFacts.vio: RefsFacts.v Refs.vio
+RefsFacts.vos RefsFacts.vok RefsFacts.required_vos: RefsFacts.v Refs.vos
